@@ -78,4 +78,21 @@ func init() {
 		}
 		props["C03"] = p
 	}
+
+	// ---- C12 ----
+	{
+		p := &Prop{ID: "C12", Outside: []string{
+			"workflow keys longer than 60 bytes (the longest table key has 50)",
+			"positions of the syntax that the full skeleton does not contain (it has every key of Appendix B once)",
+			"embeddings other than the five/four listed; non-ASCII letter case",
+			"the documentation table itself is a committed copy (spec/availability_table.md)",
+		}}
+		p.Quick = []HRun{
+			{Entry: "HarnessC12Table", Args: []int64{60}, Bound: "all 256^L workflow-key strings for every L in 1..60", Require: []string{"table-key", "other-key"}},
+			{Entry: "HarnessC12Site", Args: []int64{0}, Bound: "every scalar position of the full skeleton x 12 contexts x 5 embeddings x all 2^n letter-case spellings", Require: []string{"context-allowed", "context-not-allowed"}},
+			{Entry: "HarnessC12Site", Args: []int64{1}, Bound: "every scalar position x 5 special functions x 4 embeddings x all letter-case spellings", Require: []string{"function-allowed", "function-not-allowed"}},
+		}
+		p.Thorough = p.Quick
+		props["C12"] = p
+	}
 }
